@@ -10,11 +10,89 @@ import (
 
 // R1 MUST-FSYNC — durable before acknowledged (C06; also C05, C11, C17).
 
+// fileParamEffects: module functions that write / fsync a *os.File they receive as a parameter
+// (helpers such as `func fsync(f *os.File) error { return f.Sync() }`), to a fixpoint.
+func (p *Prog) fileParamEffects() map[*ssa.Function]map[int][2]bool {
+	if p.fileParamFx != nil {
+		return p.fileParamFx
+	}
+	fx := map[*ssa.Function]map[int][2]bool{}
+	set := func(fn *ssa.Function, i int, w, s bool) bool {
+		if fx[fn] == nil {
+			fx[fn] = map[int][2]bool{}
+		}
+		old := fx[fn][i]
+		nw := [2]bool{old[0] || w, old[1] || s}
+		fx[fn][i] = nw
+		return nw != old
+	}
+	for iter := 0; iter < 6; iter++ {
+		changed := false
+		for _, fn := range p.Funcs {
+			for _, b := range fn.Blocks {
+				for _, ins := range b.Instrs {
+					c, ok := ins.(ssa.CallInstruction)
+					if !ok {
+						continue
+					}
+					cc := c.Common()
+					name := calleeName(cc)
+					isWrite := name == "(*os.File).Write" || name == "(*os.File).WriteAt" || name == "(*os.File).WriteString" || name == "(*os.File).ReadFrom"
+					isSync := name == "(*os.File).Sync"
+					for ai, a := range cc.Args {
+						pr, isParam := canon(a).(*ssa.Parameter)
+						if !isParam || !typeIs(pr.Type(), "os", "File") {
+							continue
+						}
+						pi := paramIdx(fn, pr)
+						if ai == 0 && (isWrite || isSync) {
+							if set(fn, pi, isWrite, isSync) {
+								changed = true
+							}
+						}
+						if g := cc.StaticCallee(); g != nil && inModule(g) {
+							if e, ok := fx[g][ai]; ok && set(fn, pi, e[0], e[1]) {
+								changed = true
+							}
+						}
+					}
+				}
+			}
+		}
+		if !changed {
+			break
+		}
+	}
+	p.fileParamFx = fx
+	return fx
+}
+
 // fileEffect classifies a call as a write to / fsync of the *os.File held in
 // field fileField (of message.Writer or index.Writer).
 func (p *Prog) fileEffect(call ssa.CallInstruction, fileField *types.Var) (gen, kill bool) {
 	c := call.Common()
 	name := calleeName(c)
+	// helpers that take the file as a parameter
+	if g := c.StaticCallee(); g != nil && inModule(g) {
+		for ai, a := range c.Args {
+			if f, _ := loadedField(a); f != nil && f == fileField {
+				if e, ok := p.fileParamEffects()[g][ai]; ok {
+					return e[0], e[1] && !e[0]
+				}
+			}
+		}
+	}
+	// syscall-level fsync of the file's descriptor
+	switch name {
+	case "syscall.Fsync", "syscall.Fdatasync", "golang.org/x/sys/unix.Fsync", "golang.org/x/sys/unix.Fdatasync":
+		if len(c.Args) > 0 {
+			if fd, ok := stripConv(c.Args[0]).(*ssa.Call); ok && calleeName(fd.Common()) == "(*os.File).Fd" {
+				if f, _ := loadedField(fd.Call.Args[0]); f != nil && f == fileField {
+					return false, true
+				}
+			}
+		}
+	}
 	isWrite := name == "(*os.File).Write" || name == "(*os.File).WriteAt" || name == "(*os.File).WriteString" || name == "(*os.File).ReadFrom"
 	isSync := name == "(*os.File).Sync"
 	if !isWrite && !isSync || len(c.Args) == 0 {
